@@ -1,0 +1,179 @@
+//go:build verif
+// +build verif
+
+// Synchronous entry points and read access to Voter / VoteDB for the verification
+// harness under /verif (properties C02, C03).  Compiled only with -tags verif; add-only:
+// nothing here changes the behaviour of the package.
+
+package ucon
+
+import (
+	"errors"
+	"math/big"
+	"sync/atomic"
+
+	lru "github.com/hashicorp/golang-lru"
+	"github.com/youchainhq/go-youchain/common"
+	"github.com/youchainhq/go-youchain/consensus"
+	"github.com/youchainhq/go-youchain/core/types"
+	"github.com/youchainhq/go-youchain/event"
+	"github.com/youchainhq/go-youchain/params"
+)
+
+// Message status values of msg_handler.go for callers outside the package.
+const (
+	VerifMsgOldRound      = uint8(msgOldRound)
+	VerifMsgOldRoundIndex = uint8(msgOldRoundIndex)
+	VerifMsgSame          = uint8(msgSame)
+	VerifMsgFuture        = uint8(msgFuture)
+	VerifMsgInvalid       = uint8(msgInvalid)
+)
+
+// VerifUpdateContext is what Voter.eventLoop does for a ContextChangeEvent, on the caller's goroutine.
+func (v *Voter) VerifUpdateContext(ev ContextChangeEvent) { v.updateContext(ev) }
+
+// VerifProcessVote is what MessageHandler.HandleMsg does with a decoded vote message whose outer
+// signature recovered to `sender` (status as judged by the handler), on the caller's goroutine.
+func (v *Voter) VerifProcessVote(data *BlockHashWithVotes, vt VoteType, sender common.Address, status uint8) (error, bool) {
+	return v.processVoteMsg(VoteMsgEvent{Msg: &CachedVotesMessage{VotesData: data, addr: sender}, VType: vt}, MsgReceivedStatus(status))
+}
+
+// VerifVoterState is a read-only projection of the voter's latches and of the VoteDB's memory.
+type VerifVoterState struct {
+	Round        int64
+	RoundIndex   uint32
+	Step         uint32
+	ShouldCert   bool
+	Precommitted bool
+	Certificated bool
+	Committed    bool
+	SentChange   bool
+	CurMarked    *common.Hash
+	NextMarked   *common.Hash
+	NextVoted    *common.Hash
+	DbRound      int64
+	DbIndex      uint32
+	Mark         map[VoteType]uint8
+}
+
+// VerifState reads the projection under the locks that protect it.
+func (v *Voter) VerifState() VerifVoterState {
+	v.lock.Lock()
+	defer v.lock.Unlock()
+	st := VerifVoterState{RoundIndex: v.roundIndex, Step: v.step, ShouldCert: v.shouldCert, Precommitted: v.precommitted,
+		Certificated: v.certificated, Committed: v.committed, SentChange: v.sentChangeEvent, Mark: map[VoteType]uint8{}}
+	if v.round != nil {
+		st.Round = v.round.Int64()
+	}
+	h := func(m *MarkedBlockInfo) *common.Hash {
+		if m == nil {
+			return nil
+		}
+		x := m.BlockHash
+		return &x
+	}
+	st.CurMarked, st.NextMarked, st.NextVoted = h(v.curMarked), h(v.nextMarked), h(v.nextVoted)
+	c := v.voteCache
+	c.lock.Lock()
+	defer c.lock.Unlock()
+	if c.round != nil {
+		st.DbRound = c.round.Int64()
+	}
+	st.DbIndex = c.roundIndex
+	for k, n := range c.mark {
+		st.Mark[k] = n
+	}
+	return st
+}
+
+// VerifTally returns the weight counted for (kind, hash) in the chamber tally of the wrapper of (round, index),
+// and whether a wrapper for that context exists.
+func (v *Voter) VerifTally(round int64, roundIndex uint32, vt VoteType, hash common.Hash) (uint32, bool) {
+	v.lock.Lock()
+	defer v.lock.Unlock()
+	w := v.votesWrappers.GetWrapper(big.NewInt(round), roundIndex)
+	if w == nil {
+		return 0, false
+	}
+	_, n := w.chamber.getVotes(vt, hash)
+	return n, true
+}
+
+// ---------------------------------------------------------------------------------------------
+// Engine assembly without timers and event loops (C03): the harness delivers every event itself,
+// synchronously, to the same methods the loops call.
+
+// VerifAssemble wires the engine exactly as StartMining does but starts no goroutine and no timer loop.
+func (s *Server) VerifAssemble(chain consensus.ChainReader, inserter consensus.MineInserter, eventMux *event.TypeMux) error {
+	if s.rawSk == nil || s.blsSk == nil {
+		return errors.New("validator keys not set")
+	}
+	s.quitChan = make(chan bool, 1)
+	s.eventMux = eventMux
+	s.chain = chain
+	s.inserter = inserter
+	s.timer = NewTimerManager(s.processTimeout, s.processStepEvent)
+	s.sortitionMgr = NewSortitionManager(s.vrfSk, s.getLookbackStakeInfo, s.getLookBackSeed, s.mainAddress)
+	s.proposal = NewProposal(eventMux, s.verifyPriority, s.startVote)
+	s.voter = NewVoter(s.db, s.rawSk, s.blsSk, eventMux, s.verifySortition,
+		s.sortitionMgr.isValidator, s.proposal.blockhashWithMaxPriority,
+		s.proposal.getBlockInCache, s.getLookbackStakeInfo, s.getLookbackValidatorsCount,
+		s)
+	s.blsVerifier = s.voter.blsMgr.Verifier
+	s.msgHandler = NewMessageHandler(s.rawSk, eventMux, s.GetLookBackValidator,
+		s.processReceiveMsgEvent,
+		s.proposal.processPriorityMessage, s.proposal.processProposedBlockMsg, s.voter.processVoteMsg)
+	s.vldReaderCache, _ = lru.New(stakingCacheLimit)
+	s.voter.SetLookBackMgr(s)
+	if err := s.StartNewRound(true); err != nil {
+		return err
+	}
+	atomic.StoreInt32(&s.alreadyStarted, 1)
+	return nil
+}
+
+// VerifStep delivers the ContextChangeEvent that processStepEvent(step) posts to its three consumers, in turn.
+func (s *Server) VerifStep(step uint32) ContextChangeEvent {
+	cert := false
+	if s.currentRound != nil && s.currentRound.Uint64() > 0 && s.currentRound.Uint64()%params.ACoCHTFrequency == 0 {
+		cert = true
+	}
+	ev := ContextChangeEvent{Round: s.currentRound, RoundIndex: s.roundIndex, Step: step, Certificate: cert}
+	s.msgHandler.updateContext(ev)
+	s.proposal.updateContext(ev)
+	s.voter.updateContext(ev)
+	return ev
+}
+
+// VerifNextIndex is the engine's reaction to a RoundIndexChangeEvent for the current index (NextRound).
+func (s *Server) VerifNextIndex() error {
+	return s.NextRound(RoundIndexChangeEvent{Round: s.currentRound, RoundIndex: s.roundIndex})
+}
+
+// VerifContext returns the engine's current round and round index.
+func (s *Server) VerifContext() (int64, uint32) { return s.currentRound.Int64(), s.roundIndex }
+
+// VerifCacheBlock puts a proposed block into the round's block cache (what processProposedBlockMsg does after
+// verifying the proposer's credential, which is not the business of C03).
+func (s *Server) VerifCacheBlock(block *types.Block) {
+	pm := s.proposal.priorityMgr
+	pm.lock.Lock()
+	defer pm.lock.Unlock()
+	pm.blocks[block.Hash()] = block
+}
+
+// VerifSetBest registers the block's priority for the current (round, index), so that it is the proposal the voter prevotes.
+func (s *Server) VerifSetBest(block *types.Block) error {
+	cd, err := GetConsensusDataFromHeader(block.Header())
+	if err != nil {
+		return err
+	}
+	s.proposal.priorityMgr.update(block, block.Hash(), cd.Priority, s.currentRound, s.roundIndex)
+	return nil
+}
+
+// VerifCommit is what the engine's event loop does with a CommitEvent.
+func (s *Server) VerifCommit(ev CommitEvent) { s.commit(ev) }
+
+// VerifVoter gives access to the engine's voter.
+func (s *Server) VerifVoter() *Voter { return s.voter }
